@@ -50,6 +50,66 @@ def emission_sequence(B, path):
     return seq
 
 
+def exemption_predicate(F, R, G, rule):
+    """the single predicate behind both the signature exemption (C04.R5) and the large body limit (C15.R1)"""
+    # ------------------------------------------------------------------ R5 exemption list
+    ss = R.anchor(HC + "should_skip_sig", rule)
+    if ss:
+        B = mir.Body(ss, F)
+        expected = [("http::Method::PUT", "/vmagentlog"), ("http::Method::POST", "/machine/?comp=telemetrydata")]
+        ps = paths.enumerate_paths(B)
+        seen = set()
+        for p in ps:
+            atoms = paths.path_atoms(B, F, p)
+            res = paths.returned_variant(B, p)
+            pos = [a[0] for a in atoms if a[1] is True]
+            verdict = None
+            # result value of the path
+            lastb = None
+            for b_, _ in p:
+                for s in B.blocks[b_]["stmts"]:
+                    if s["k"] == "assign" and s["lhs"]["l"] == 0 and s["rv"]["k"] == "use" and s["rv"]["o"]["k"] == "const":
+                        verdict = bool(s["rv"]["o"].get("val"))
+                t = B.blocks[b_]["term"]
+                if t["k"] == "call" and t["dest"]["l"] == 0:
+                    w, r = mir.callee_of(t)
+                    if q.ends(w, "eq"):
+                        pos = pos + ["eq(%s, %s)" % tuple(paths.describe_origin(B, x) for x in t["args"])]
+                        verdict = True  # "may be true": accepted iff this final comparison holds
+                    else:
+                        verdict = "unknown:%s" % w
+            if verdict is True:
+                match = None
+                for m, u in expected:
+                    if any(("const:" + m) in a for a in pos) and any(("const:%r" % u) in a for a in pos):
+                        match = (m, u)
+                if match:
+                    seen.add(match)
+                R.check(match is not None, rule, R.key(rule, ss["id"], "accepting-path"), "%s:%s" % (ss["file"], ss["line"]),
+                        "accepting path requires %s" % (match,), "an accepting path of should_skip_sig is not one of the two documented pairs: %s" % pos)
+            elif verdict not in (False, None):
+                R.fail(rule, R.key(rule, ss["id"], "unknown-result"), "-", "result of should_skip_sig not analysable: %s" % verdict)
+        R.check(seen == set(expected), rule, rule + ":%s:both-pairs" % ss["id"], "-", "both documented exemptions are accepted on some path",
+                "accepted pairs: %s" % sorted(seen))
+        # url is lower-cased before comparison
+        lowered = True
+        for bi, w, r, t in B.calls_named("eq"):
+            for arg in t["args"]:
+                org = B.origins(arg)
+                if any(x[0] == "param" and x[1] == "relative_uri" for x in org):
+                    if not any(q.ends(v, "to_lowercase", "to_ascii_lowercase") for v in B.via(arg)):
+                        lowered = False
+        R.check(lowered, rule, rule + ":%s:case-folded" % ss["id"], "-", "the URL operand of every comparison passed through to_lowercase()")
+        # single predicate behind both the limit and the skip branch
+        callers = {c for c in G.callers(ss["id"])}
+        R.check(callers == {"azure_proxy_agent::proxy::proxy_connection::HttpConnectionContext::should_skip_sig",
+                            PS + "handle_new_tcp_connection::{closure#0}::{closure#0}::{closure#0}"} or
+                all("proxy_connection::HttpConnectionContext::should_skip_sig" in c or "handle_new_tcp_connection" in c for c in callers),
+                rule, rule + ":%s:callers" % ss["id"], "-",
+                "should_skip_sig is the single predicate behind the body limit (service closure) and the skip branch: %s" % sorted(callers))
+
+
+
 def send_chain_untouched(F, R, G, rule):
     """shared by C04.R1 (sign what you send) and C14.R1 (transparency)"""
     # the send chain below the signing route must hand the request on untouched: HttpConnectionContext::send_request ->
@@ -314,61 +374,7 @@ def run(F, R, tier):
                 "the only Ok value is hex::encode(HMAC::new(hex::decode(hex_encoded_key)).update(input_to_sign).finalize())",
                 "the Ok value of compute_signature is not the expected HMAC chain")
 
-    # ------------------------------------------------------------------ R5 exemption list
-    ss = R.anchor(HC + "should_skip_sig", "C04.R5")
-    if ss:
-        B = mir.Body(ss, F)
-        expected = [("http::Method::PUT", "/vmagentlog"), ("http::Method::POST", "/machine/?comp=telemetrydata")]
-        ps = paths.enumerate_paths(B)
-        seen = set()
-        for p in ps:
-            atoms = paths.path_atoms(B, F, p)
-            res = paths.returned_variant(B, p)
-            pos = [a[0] for a in atoms if a[1] is True]
-            verdict = None
-            # result value of the path
-            lastb = None
-            for b_, _ in p:
-                for s in B.blocks[b_]["stmts"]:
-                    if s["k"] == "assign" and s["lhs"]["l"] == 0 and s["rv"]["k"] == "use" and s["rv"]["o"]["k"] == "const":
-                        verdict = bool(s["rv"]["o"].get("val"))
-                t = B.blocks[b_]["term"]
-                if t["k"] == "call" and t["dest"]["l"] == 0:
-                    w, r = mir.callee_of(t)
-                    if q.ends(w, "eq"):
-                        pos = pos + ["eq(%s, %s)" % tuple(paths.describe_origin(B, x) for x in t["args"])]
-                        verdict = True  # "may be true": accepted iff this final comparison holds
-                    else:
-                        verdict = "unknown:%s" % w
-            if verdict is True:
-                match = None
-                for m, u in expected:
-                    if any(("const:" + m) in a for a in pos) and any(("const:%r" % u) in a for a in pos):
-                        match = (m, u)
-                if match:
-                    seen.add(match)
-                R.check(match is not None, "C04.R5", R.key("C04.R5", ss["id"], "accepting-path"), "%s:%s" % (ss["file"], ss["line"]),
-                        "accepting path requires %s" % (match,), "an accepting path of should_skip_sig is not one of the two documented pairs: %s" % pos)
-            elif verdict not in (False, None):
-                R.fail("C04.R5", R.key("C04.R5", ss["id"], "unknown-result"), "-", "result of should_skip_sig not analysable: %s" % verdict)
-        R.check(seen == set(expected), "C04.R5", "C04.R5:%s:both-pairs" % ss["id"], "-", "both documented exemptions are accepted on some path",
-                "accepted pairs: %s" % sorted(seen))
-        # url is lower-cased before comparison
-        lowered = True
-        for bi, w, r, t in B.calls_named("eq"):
-            for arg in t["args"]:
-                org = B.origins(arg)
-                if any(x[0] == "param" and x[1] == "relative_uri" for x in org):
-                    if not any(q.ends(v, "to_lowercase", "to_ascii_lowercase") for v in B.via(arg)):
-                        lowered = False
-        R.check(lowered, "C04.R5", "C04.R5:%s:case-folded" % ss["id"], "-", "the URL operand of every comparison passed through to_lowercase()")
-        # single predicate behind both the limit and the skip branch
-        callers = {c for c in G.callers(ss["id"])}
-        R.check(callers == {"azure_proxy_agent::proxy::proxy_connection::HttpConnectionContext::should_skip_sig",
-                            PS + "handle_new_tcp_connection::{closure#0}::{closure#0}::{closure#0}"} or
-                all("proxy_connection::HttpConnectionContext::should_skip_sig" in c or "handle_new_tcp_connection" in c for c in callers),
-                "C04.R5", "C04.R5:%s:callers" % ss["id"], "-",
-                "should_skip_sig is the single predicate behind the body limit (service closure) and the skip branch: %s" % sorted(callers))
+    exemption_predicate(F, R, G, "C04.R5")
 
     # ------------------------------------------------------------------ R6 own host calls
     table = {
